@@ -1,6 +1,6 @@
 (* Proofs for C01: no sequence of safe API calls on a loaded boot information faults; every reference
    handed out lies inside the tag it was derived from. *)
-Require Import Bytes Outcome Layout Common TagType Mbi MbiTags Strings MbiAccess Handles WalkSpec
+Require Import Bytes Outcome Layout Common TagType Mbi MbiTags Strings MbiAccess Debug Handles WalkSpec
                BytesFacts ArithFacts CommonFacts IterFacts CastFacts StringFacts C02Proofs C03Proofs C18Proofs C19Proofs.
 From Coq Require Import Lia ZArith ZifyN ZifyBool ZifyNat String.
 Ltac Zify.zify_post_hook ::= Z.div_mod_to_equations.
@@ -290,8 +290,129 @@ Proof. intros H1 H2. constructor; [exact H1|apply inv1; exact H2]. Qed.
 Lemma ret_ok m total hs : Forall (Inv m total) hs -> outcome_ok m total (ret hs).
 Proof. intros H. exact H. Qed.
 
+
+(* ---- Debug formatters ------------------------------------------------------------------------------- *)
+Definition nofault {A} (r : res A) : Prop := is_fault r = false.
+
+Lemma nofault_bind {A B} (r : res A) (f : A -> res B) :
+  nofault r -> (forall a, r = Val a -> nofault (f a)) -> nofault (bind r f).
+Proof. destruct r as [a| | |]; cbn [bind]; intros H Hf; try reflexivity; try exact H. apply Hf. reflexivity. Qed.
+
+Lemma nofault_ignore {A} (r : res A) : nofault r -> nofault (ignore r).
+Proof. destruct r; intros H; try reflexivity; exact H. Qed.
+Lemma nofault_ignore_err {A} (r : res A) : nofault r -> nofault (ignore_err r).
+Proof. destruct r; intros H; try reflexivity; exact H. Qed.
+
+Lemma dbg_efi_val p m L it : efi_inv m L it -> dbg_efi_iter p m it = Val tt.
+Proof.
+  intros Hi. unfold dbg_efi_iter. rewrite (efi_collect_spec p m L _ it Hi); [reflexivity|].
+  destruct Hi as [_ _ _ _ Hle]. lia.
+Qed.
+
+Lemma elf_take_nofault p m tag_off L : forall n it, elf_inv m tag_off L it -> nofault (elf_take n p m it).
+Proof.
+  induction n as [|n IH]; intros it Hi; cbn [elf_take]; [reflexivity|].
+  pose proof (elf_next_inv p m tag_off L (elf_fuel it) it Hi ltac:(unfold elf_fuel; lia)) as N.
+  destruct (elf_next (elf_fuel it) p m it) as [[[s|] it']| | |]; cbn [bind]; try reflexivity; try (destruct N; fail).
+  destruct N as (_ & Hi' & _). apply IH. exact Hi'.
+Qed.
+
+Lemma status_nofault ok : nofault (status ok).
+Proof. destruct ok; reflexivity. Qed.
+
+Lemma modules_spec_nofault bs l ok : nofault (snd (modules_spec bs l ok)).
+Proof.
+  induction l as [|it l IH]; cbn [modules_spec]; [apply status_nofault|].
+  destruct (is_module bs it); [|exact IH]. destruct (i_size it <? 16); [reflexivity|].
+  destruct (modules_spec bs l ok) as [x e]. exact IH.
+Qed.
+
+Lemma modules_run_nofault p m total nxt : region_ok m total -> nxt mod 8 = 0 -> nxt <= total - 8 ->
+  nofault (snd (modules_run (iter_fuel (total - 8)) p m 8 (total - 8) nxt)).
+Proof.
+  intros Hr Hn Hle. pose proof (region_iter_ok m total Hr) as Hok.
+  destruct (walk_from p m total nxt Hr Hn Hle) as (l & ok & W). destruct Hr as [A B C D E].
+  rewrite (modules_walk p m 8 (total - 8) Hok (iter_fuel (total - 8)) l ok nxt Hn Hle).
+  - apply modules_spec_nofault.
+  - pose proof (walk_length _ _ _ _ _ W ltac:(lia)) as Hl. unfold iter_fuel, len in *. lia.
+  - replace (8 + (total - 8)) with total by lia. exact W.
+Qed.
+
+Lemma tagiter_run_nofault p m total : region_ok m total ->
+  nofault (snd (tagiter_run (iter_fuel (total - 8)) p HTagH m 8 (total - 8) 0)).
+Proof.
+  intros Hr. pose proof (region_iter_ok m total Hr) as Hok. destruct Hr as [A B C D E].
+  destruct (run_walk p HTagH m 8 (total - 8) Hok (iter_fuel (total - 8)) 0 eq_refl ltac:(lia) ltac:(unfold iter_fuel; rewrite N.sub_0_r; lia))
+    as (l & ok & Hrun & _).
+  rewrite Hrun. apply status_nofault.
+Qed.
+
 Lemma kind_tail_none_end k : sd_tail (kind_struct k) = None -> sd_tail_off (kind_struct k) <= sd_size_of (kind_struct k).
 Proof. destruct k; intros H; try discriminate H; vm_compute; discriminate. Qed.
+
+Lemma dbg_kind_nofault p m total k t : region_ok m total -> no_f18 m total -> tref_ok m total k t ->
+  nofault (dbg_kind p k m t).
+Proof.
+  intros Hr Hf Hinv. destruct k; cbn [dbg_kind]; try reflexivity.
+  - (* VBE *) apply nofault_ignore. unfold vbe_memory_model. specialize (Hf t Hinv).
+    destruct (N.leb_spec (fld KVbe m t "mi.memory_model") 7); [reflexivity|lia].
+  - (* framebuffer *) apply nofault_ignore_err. pose proof (fb_inv m total t Hr Hinv) as F.
+    destruct (fb_buffer_type m t); try reflexivity. destruct F.
+  - (* ELF *) destruct (elf_tag_ok_of m total t Hr Hinv) as (L & Hok & Hin).
+    rewrite (elf_sections_closed p m t L Hok). destruct (elf_fits m t L) eqn:Ef; cbn [bind]; [|reflexivity].
+    apply (elf_take_nofault p m (t_off t) L). apply (elf_sections_inv p m t L _ Hok).
+    rewrite (elf_sections_closed p m t L Hok), Ef. reflexivity.
+  - (* EFI *) destruct (efi_tag_ok_of m total t Hr Hinv) as (L & Hok & Hin).
+    rewrite (efi_areas_closed m t L Hok). destruct (efi_accepts m t L) eqn:Ea; cbn [bind]; [|reflexivity].
+    rewrite (dbg_efi_val p m L); [reflexivity|].
+    apply (efi_areas_inv m t L _ Hok). rewrite (efi_areas_closed m t L Hok), Ea. reflexivity.
+Qed.
+
+Lemma dbg_get_nofault p m total k : region_ok m total -> no_f18 m total ->
+  nofault (dbg_opt p k m (get_tag p k m (boot_ref total))).
+Proof.
+  intros Hr Hf. unfold dbg_opt. pose proof (get_tag_inv p m total k Hr) as G.
+  destruct (get_tag p k m (boot_ref total)) as [[t|]| | |]; cbn [bind]; try reflexivity; try (destruct G; fail).
+  apply (dbg_kind_nofault p m total k t Hr Hf G).
+Qed.
+
+Lemma dbg_boot_nofault p m total : region_ok m total -> no_f18 m total -> nofault (dbg_boot p m (boot_ref total)).
+Proof.
+  intros Hr Hf. pose proof Hr as [R1 R2 R3 R4 R5]. unfold dbg_boot.
+  assert (Ha : forall k (f : unit -> res unit), (forall u, nofault (f u)) ->
+               nofault (bind (dbg_opt p k m (get_tag p k m (boot_ref total))) f)).
+  { intros k f Hfn. apply nofault_bind; [apply dbg_get_nofault; assumption|intros a _; apply Hfn]. }
+  apply nofault_bind.
+  { apply nofault_ignore. unfold mbi_end_address, uadd, add_w. destruct (_ <? pow2_64); [reflexivity|destruct p; reflexivity]. }
+  intros _ _.
+  do 8 (apply Ha; intros _).
+  apply nofault_bind.
+  { unfold dbg_opt, efi_memory_map_tag. pose proof (get_tag_inv p m total KEfiBs Hr) as G.
+    destruct (get_tag p KEfiBs m (boot_ref total)) as [[t|]| | |]; cbn [bind]; try reflexivity; try (destruct G; fail).
+    pose proof (get_tag_inv p m total KEfiMmap Hr) as G2.
+    destruct (get_tag p KEfiMmap m (boot_ref total)) as [[t|]| | |]; cbn [bind]; try reflexivity; try (destruct G2; fail).
+    apply (dbg_kind_nofault p m total KEfiMmap t Hr Hf G2). }
+  intros _ _.
+  do 3 (apply Ha; intros _).
+  apply nofault_bind.
+  { unfold framebuffer_tag. pose proof (get_tag_inv p m total KFramebuffer Hr) as G.
+    destruct (get_tag p KFramebuffer m (boot_ref total)) as [[t|]| | |]; cbn [bind]; try reflexivity; try (destruct G; fail).
+    pose proof (fb_inv m total t Hr G) as F.
+    destruct (fb_buffer_type m t) as [x| | |] eqn:Eb; cbn [bind]; try reflexivity; try (destruct F; fail).
+    cbn [dbg_kind]. rewrite Eb. reflexivity. }
+  intros _ _.
+  do 2 (apply Ha; intros _).
+  apply nofault_bind.
+  { unfold tags_b, tags_len, boot_ref. cbn [d_off d_plen]. change (0 + 8) with 8.
+    apply (modules_run_nofault p m total 0 Hr); [reflexivity|lia]. }
+  intros _ _.
+  do 5 (apply Ha; intros _).
+  unfold tags_b, tags_len, boot_ref. cbn [d_off d_plen]. change (0 + 8) with 8.
+  apply (tagiter_run_nofault p m total Hr).
+Qed.
+
+Lemma nofault_unit_step m total (r : res unit) : nofault r -> outcome_ok m total (bind r (fun _ => ret [HVal])).
+Proof. destruct r; cbn [bind outcome_ok]; intros H; try exact I; try discriminate H. unfold ret. constructor; [exact I|constructor]. Qed.
 
 Lemma step_safe_tag p m total k t o : region_ok m total -> no_f18 m total -> tref_ok m total k t ->
   outcome_ok m total (step p m (HTag k t) o).
@@ -351,6 +472,9 @@ Proof.
     destruct k; cbn [step]; try nil_case.
     unfold vbe_memory_model. specialize (Hf t Hinv).
     destruct (N.leb_spec (fld KVbe m t "mi.memory_model") 7); [|lia]. cbn [bind outcome_ok]. apply inv1; exact I.
+  - (* ODebug *)
+    assert (Hd : nofault (dbg_kind p k m t)) by (apply (dbg_kind_nofault p m total k t Hr Hf Hinv)).
+    destruct k; cbn [step]; apply nofault_unit_step; exact Hd.
 Qed.
 
 Lemma rmap_fault {A B} (f : A -> B) (r : res A) : is_fault (rmap f r) = is_fault r.
@@ -385,6 +509,17 @@ Proof.
         -- apply inv1. exact G.
         -- destruct F.
       * constructor.
+    + (* deprecated elf_sections() *)
+      unfold elf_sections_deprecated. pose proof (get_tag_inv p m total KElfSections Hr) as G.
+      destruct (get_tag p KElfSections m (boot_ref total)) as [[t|]| | |]; cbn [bind outcome_ok]; try exact G; try exact I.
+      * unfold assert. destruct (_ <=? _); cbn [bind outcome_ok]; [|exact I].
+        destruct (elf_tag_ok_of m total t Hr G) as (L & Hok & Hin).
+        pose proof (elf_sections_inv p m t L) as SI.
+        destruct (elf_sections p m t) as [it| | |] eqn:Es2; cbn [bind outcome_ok]; try exact I.
+        -- apply inv1. cbn [Inv]. exists (t_off t), L. split; [apply SI; [exact Hok|reflexivity]|exact Hin].
+        -- rewrite (elf_sections_closed p m t L Hok) in Es2. destruct (elf_fits m t L); discriminate.
+      * constructor.
+    + (* Debug *) apply nofault_unit_step. apply dbg_boot_nofault; assumption.
   - (* HIter *) destruct Hinv as (-> & Hn & Hle).
     destruct o; cbn [step]; try nil_case.
     + unfold tags_b, tags_len, boot_ref. cbn [d_off d_plen]. change (0 + 8) with 8.
@@ -404,6 +539,8 @@ Proof.
         apply inv2; cbn [Inv]; [repeat split; assumption|exact C].
       * destruct F as (A & B). apply inv1; cbn [Inv]; repeat split; assumption.
     + apply ret_ok. apply inv1; cbn [Inv]; repeat split; assumption.
+    + (* Debug *) apply nofault_unit_step. unfold tags_b, tags_len, boot_ref. cbn [d_off d_plen]. change (0 + 8) with 8.
+      apply (modules_run_nofault p m total nxt Hr Hn Hle).
   - (* HGen *) destruct o; cbn [step]; try nil_case.
     + pose proof (cast_inv p m total k g Hr Hinv) as C.
       destruct (cast_kind p k m g) as [t| | |]; cbn [bind outcome_ok]; try exact C; try exact I.
@@ -423,6 +560,7 @@ Proof.
         -- lia.
     + apply ret_ok. apply inv1. cbn [Inv]. exists L. split; assumption.
     + rewrite El. cbn [bind outcome_ok]. apply inv1; exact I.
+    + (* Debug *) rewrite (dbg_efi_val p m L it Hi). cbn [bind outcome_ok]. apply inv1; exact I.
   - (* HElfIter *) destruct Hinv as (tag_off & L & Hi & Hin).
     destruct o; cbn [step]; try nil_case.
     + pose proof (elf_next_inv p m tag_off L (elf_fuel it) it Hi ltac:(unfold elf_fuel; lia)) as N.
@@ -431,6 +569,7 @@ Proof.
       * destruct N as (_ & S2). apply inv1. cbn [Inv]. exists tag_off, L. split; assumption.
     + apply ret_ok. apply inv1. cbn [Inv]. exists tag_off, L. split; assumption.
     + apply ret_ok. apply inv1; exact I.
+    + (* Debug *) apply nofault_unit_step. apply (elf_take_nofault p m tag_off L 7 it Hi).
   - (* HElfSec *) destruct Hinv as (tag_off & L & Hs & Hin).
     destruct (elf_accessors_nofault p m tag_off L s Hs) as (A1 & A2 & A3 & A4 & A5 & A6 & A7 & A8).
     destruct o; cbn [step]; try nil_case.
@@ -469,6 +608,9 @@ Proof.
     pose proof (run_safe p m _ Hr Hf prog [HBoot (boot_ref (le (slice bs 0 4)))] ltac:(apply inv1; reflexivity)) as S.
     destruct (run p m [HBoot (boot_ref (le (slice bs 0 4)))] prog); cbn [outcome_ok is_fault] in *; try reflexivity. destruct S.
 Qed.
+
+Lemma step_tag_debug p m k t : step p m (HTag k t) ODebug = (_ <- dbg_kind p k m t ;; ret [HVal]).
+Proof. destruct k; reflexivity. Qed.
 
 (* ---- every reference or slice handed out by a tag lies entirely inside that tag ------------------------ *)
 Theorem views_inside_tag p m total k t o hs off n : region_ok m total -> tref_ok m total k t ->
@@ -543,6 +685,10 @@ Proof.
     clear - Hs Hone. set (b := fld KVbe m t "mi.memory_model" <=? 7) in Hs. clearbody b.
     destruct b; cbn [bind] in Hs; unfold ret in Hs; try discriminate.
     assert (E : HVal = HView off n) by (apply Hone; exact Hs). discriminate.
+  - (* ODebug *)
+    assert (E : forall r : res unit, bind r (fun _ => ret [HVal]) = Val hs -> HVal = HView off n).
+    { intros r Hb. destruct r; cbn [bind] in Hb; try discriminate. unfold ret in Hb. apply Hone. exact Hb. }
+    rewrite step_tag_debug in Hs. apply E in Hs. discriminate.
 Qed.
 
 (* the known finding is real: a conformant VBE tag with memory-model byte 8 makes the model fault *)
